@@ -115,8 +115,8 @@ func hostileStream(c *vf.Ctx) {
 							want = "internalKind"
 						}
 					}
-					if got := errClass(err); got != want {
-						c.Violation(fmt.Sprintf("Stream.HandlePacket(kind class %s, control %v) returned %s, StreamCore.tla demands %s", kindClass(kind), ctl, got, want),
+					if got := streamErrClass(err); got != want {
+						c.Violation(fmt.Sprintf("Stream.HandlePacket(kind class %s, control %v) returned %s, StreamCore.tla demands %s", kindClass13(kind), ctl, got, want),
 							map[string]any{"state": st.name, "kind": kind})
 					}
 					// an unknown kind with the control bit must leave the stream as it was
@@ -130,7 +130,7 @@ func hostileStream(c *vf.Ctx) {
 	c.Cov["stream_dispatch_cases"] = n
 }
 
-func kindClass(k int) string {
+func kindClass13(k int) string {
 	if k >= 1 && k <= 7 {
 		return dir.KindName(k)
 	}
